@@ -45,6 +45,12 @@ def check(run):
     from . import C17 as _C17
     with R.as_rule('C07.gate'):
         _C17.session(R)          # the _ready gate starts closed: every connect() runs on a newly built session
+    from . import C15 as _C15, C18 as _C18
+    with R.as_rule('C07.timeout'):
+        _C15.units(R)            # the loop wakes up every `poll` seconds (a number): the timeouts are looked at
+        _C15.poll(R)
+        _C18.count(R)            # ... and it reads only what the selector announced (no blocking read with a timeout pending)
+        _C18.pending(R)
     from .common import event_names
     event_names(R, 'C07.timeout')        # a Ping is not taken for a Pong: the ping timeout can fire
     from .common import maybe_unbound
